@@ -115,3 +115,41 @@ def wrapper_clauses(env, ts, args, fres, res):
              And(ok, Eq(v(res, "mstart"), v(args[0], "mstart")), Eq(v(res, "mend"), v(args[-1], "mend")),
                  v(res, "mstart") >= 0, v(res, "mstart") < v(res, "mend")) if ok else False),
             ("value-unchanged", ["C15", "C02"], same_time_value(res, fres) if ok else False)]
+
+
+# ------------------------------------------------------------------ C18 value semantics
+def same_value(a, b):
+    """a and b are of the same kind and denote the same value (C18's definition; spans excluded)"""
+    ka, kb = kind(a), kind(b)
+    if ka != kb:
+        return False
+    if ka == "Time":
+        return same_time_value(a, b)
+    if ka == "Interval":
+        return And(same_opt_time(fld(a, "t_from"), fld(b, "t_from")), same_opt_time(fld(a, "t_to"), fld(b, "t_to")))
+    if ka == "Duration":
+        return And(Eq(v(a, "value"), v(b, "value")), unit_same(fld(a, "unit"), fld(b, "unit")))
+    return False
+
+
+def unit_same(u1, u2):
+    if hasattr(u1, "idx") and hasattr(u2, "idx"):
+        return Eq(u1.idx, u2.idx)
+    if hasattr(u1, "idx") or hasattr(u2, "idx"):
+        s, o = (u1, u2) if hasattr(u1, "idx") else (u2, u1)
+        return Or(*[Eq(s.idx, i) for i, m in enumerate(s.members) if m.name == o.name])
+    return u1.name == u2.name
+
+
+def eq_clauses(env, a, b, eq_result, hash_same):
+    sv = same_value(a, b)
+    return [("eq-iff-same-kind-and-value", ["C18", "C17"], Iff(eq_result, sv)),
+            ("equal-values-hash-equal", ["C18"], Implies(sv, hash_same))]
+
+
+def roundtrip_clauses(env, x, r, eq_result, shape_ok=None):
+    out = [("parse-of-text-form-is-equal", ["C18", "C17"], And(same_value(r, x), eq_result))]
+    if shape_ok is not None:
+        # what the Interval round trip assumes about the text form of a Time (modular use)
+        out.append(("text-form-shape", ["C18"], shape_ok))
+    return out
